@@ -14,7 +14,7 @@ use std::time::Duration;
 use crate::exop_impl::StartTLS;
 use crate::ldap::Ldap;
 use crate::protocol::{ItemSender, LdapCodec, LdapOp, MaybeControls, MiscSender, ResultSender};
-use crate::result::{LdapError, Result};
+use crate::result::{LdapError, LdapResultExt, Result};
 use crate::search::SearchItem;
 use crate::RequestId;
 
@@ -840,9 +840,24 @@ impl LdapConnAsync {
                         };
                         let (item, mut remove) = match protoop.id {
                             4 | 25 => (SearchItem::Entry(protoop), false),
-                            5 => (SearchItem::Done(Tag::StructureTag(protoop).into()), true),
+                            5 => match LdapResultExt::try_from_tag(Tag::StructureTag(protoop)) {
+                                Some(res) => (SearchItem::Done(res.0), true),
+                                None => {
+                                    warn!("malformed search result, op={}", id);
+                                    return Err(LdapError::from(io::Error::new(
+                                        io::ErrorKind::Other,
+                                        "decoding error",
+                                    )));
+                                }
+                            },
                             19 => (SearchItem::Referral(protoop), false),
-                            _ => panic!("unrecognized op id: {}", protoop.id),
+                            _ => {
+                                warn!("unrecognized op id: {}, op={}", protoop.id, id);
+                                return Err(LdapError::from(io::Error::new(
+                                    io::ErrorKind::Other,
+                                    "decoding error",
+                                )));
+                            }
                         };
                         if let Err(e) = tx.send((item, controls)) {
                             warn!("ldap search item send error, op={}: {:?}", id, e);
